@@ -274,6 +274,11 @@ func (p *Parser) parseBetweenExpression(left Expression) Expression {
 	}
 
 	p.nextToken()
+
+	if !p.curTokenIsOperand() {
+		return nil
+	}
+
 	expression.Range[0] = p.parseIdentifier()
 
 	if !p.expectPeek(AND) {
@@ -281,6 +286,11 @@ func (p *Parser) parseBetweenExpression(left Expression) Expression {
 	}
 
 	p.nextToken()
+
+	if !p.curTokenIsOperand() {
+		return nil
+	}
+
 	expression.Range[1] = p.parseIdentifier()
 
 	return expression
@@ -426,6 +436,18 @@ func (p *Parser) parseActions(token Token) []Expression {
 
 func (p *Parser) peekTokenIs(t TokenType) bool {
 	return p.peekToken.Type == t
+}
+
+// curTokenIsOperand reports a syntax error unless the current token can be an operand
+func (p *Parser) curTokenIsOperand() bool {
+	if p.curToken.Type != IDENT {
+		msg := fmt.Sprintf("Syntax error; expected an operand, got %s", p.curToken.Type)
+		p.errors = append(p.errors, msg)
+
+		return false
+	}
+
+	return true
 }
 
 func (p *Parser) tokenIsOneOf(ts []TokenType) bool {
